@@ -8,5 +8,8 @@ VARIABLE hist
 HInit == Init /\ hist = <<>>
 HNext == Next /\ hist' = Append(hist, last')
 HView == View
-Export == PrintT("EXPORT " \o ToJson(hist'))
+(* the design properties over `last` are asserted on every generated transition (the VIEW *)
+(* hides `last`, so they cannot be plain invariants here)                                *)
+Export == /\ Assert(OnlyIssued' /\ NoResplit', "Authn design rule violated")
+          /\ PrintT("EXPORT " \o ToJson(hist'))
 =============================================================================
